@@ -189,6 +189,61 @@ fn string_literal_contexts(total: &mut Stats) -> u64 {
     n as u64
 }
 
+/// Constants whose *static* type is a union wider than their value (`if true a else b` written
+/// without braces folds to the value of the taken branch, typed by both): every operator over two
+/// such constants of the same union type, holding members of the same kind and of different kinds.
+/// The checker decides on the types, the folder then works on the values.
+fn union_typed_constants(total: &mut Stats) -> u64 {
+    const KINDS: &[(&str, &str, &str)] = &[
+        ("bool", "true", "false"),
+        ("int", "1", "0"),
+        ("float", "1.5", "0.0"),
+        ("string", "\"a\"", "\"\""),
+        ("[int]", "[1]", "[]"),
+        ("()", "()", "()"),
+    ];
+    const CONTEXTS: &[&str] = &[
+        "K0; K1; k0 OP k1",
+        "K0; K1; f := () -> any { return k0 OP k1 }; f()",
+        "K0; K1; f := (c: bool) -> any { if c { return k0 OP k1 }; return 0 }; f(false)",
+        "K0; K1; c := mut UNION VAL0; c OP= k1",
+        "K0; K1; [k0 OP k1]",
+        "K0; K1; if k0 OP k1 { 1 } else { 2 }",
+    ];
+    const OPS: &[&str] = &["+", "-", "*", "/", "%", "**", "<<", ">>", "&", "|", "^", "==", "!=", "<", "<=", ">", ">=", "&&", "||"];
+    const UNARY: &[&str] = &["K0; -k0", "K0; !k0", "K0; f := () -> any { return -k0 }; f()", "K0; f := () -> any { return !k0 }; f()", "K0; K1; k0[k1]", "K0; K1; k0[k1:]", "K0; K1; [k0; k1]", "K0; k0~", "K0; k0 $+", "K0; *k0", "K0; k0()", "K0; k0.0", "K0; k0.a", "K0; for e in k0 { }", "K0; K1; while k0 { break }", "K0; K1; (k0, k1) := k0"];
+    let mut texts: Vec<String> = Vec::new();
+    for (ta, a1, a2) in KINDS {
+        for (tb, b1, b2) in KINDS {
+            if ta == tb {
+                continue;
+            }
+            // k0 holds a member of kind A; k1 a member of kind B, or another member of kind A
+            let k0 = format!("k0 := if true {a1} else {b1}");
+            for k1 in [format!("k1 := if true {b2} else {a2}"), format!("k1 := if false {b2} else {a2}"), format!("k1 := if true {a2} else {b2}")] {
+                for op in OPS {
+                    for ctx in CONTEXTS {
+                        texts.push(ctx.replace("K0", &k0).replace("K1", &k1).replace("UNION", &format!("{ta}|{tb}")).replace("VAL0", a1).replace("OP", op));
+                    }
+                }
+                for ctx in UNARY {
+                    texts.push(ctx.replace("K0", &k0).replace("K1", &k1));
+                }
+            }
+        }
+    }
+    let n = texts.len();
+    let states = par_fold(
+        n,
+        || (Stats::default(), Interpreter::with_stdlib()),
+        |(st, interp), i| probe(&texts[i], interp, "std", false, st),
+    );
+    for (s, _) in states {
+        total.merge(s);
+    }
+    n as u64
+}
+
 /// Lexical level, integer literals: 2^k - 1, 2^k, 2^k + 1 for k = 0..=65 (so every magnitude
 /// around i64::MAX, u64::MAX and beyond) in the four radixes, plain and with digit separators,
 /// in every position that reads an integer literal
@@ -491,6 +546,10 @@ pub fn run(tier: &str) -> i32 {
     // (b3) integer literal magnitudes x radixes x positions
     let n_int = int_literal_ladder(&mut total);
     parts.insert("int_literal_ladder".into(), json!({"magnitudes": "2^k - 1, 2^k, 2^k + 1 for k = 0..=65", "radixes": 4, "contexts": 9, "count": n_int}));
+
+    // (b4) constants of union static type under every operator
+    let n_union = union_typed_constants(&mut total);
+    parts.insert("union_typed_constants".into(), json!({"kinds": 6, "ordered_pairs": 30, "second_operand_variants": 3, "binary_operators": 19, "contexts": 6, "other_forms": 16, "count": n_union}));
 
     // (c) corpus mutations
     let (n_prog, n_ok, n_mut) = corpus_mutations(thorough, &mut total, &mut samples);
